@@ -58,7 +58,9 @@ TupText(e, t) == Prefix(e) \o Dot(t)
 DateShaped(t) == Len(t) = 3 /\ t[1] >= 1000 /\ t[1] <= 9999 /\ t[2] <= 99 /\ t[3] <= 99
 
 Sgn(n) == IF n < 0 THEN -1 ELSE IF n > 0 THEN 1 ELSE 0
-MarkerBases(k) == {Ctx(k, 1), Ctx(k, 3), [Ctx(k, 2) EXCEPT ![1] = 1]}
+\* bases of the marker rows: all ones, mixed magnitudes, 1.0.0..., the all-zero version (the lowest release) and a
+\* base whose last component is 2^31 - 1
+MarkerBases(k) == {Ctx(k, 1), Ctx(k, 3), [Ctx(k, 2) EXCEPT ![1] = 1], Ctx(k, 2), [Ctx(k, 1) EXCEPT ![k] = 2147483647]}
 MarkerVecs(e) ==
   UNION {{[eco |-> e, kind |-> "pre", a |-> TupText(e, t) \o m, b |-> TupText(e, t), want |-> -1]
             : t \in MarkerBases(k), m \in PreMarkers(e)}
